@@ -315,11 +315,14 @@ def propagate_constants(tree: ast.Module) -> int:
                 if isinstance(st, ast.Assign) and len(st.targets) == 1 and isinstance(st.targets[0], ast.Name) and ccount[st.targets[0].id] == 1 \
                         and _immutable_literal(st.value) and not (isinstance(st.value, ast.Constant) and st.value.value is None):
                     cc[st.targets[0].id] = st.value
-            # an attribute of that name stored anywhere in the module is not a constant
-            for n in ast.walk(tree):
-                if isinstance(n, ast.Attribute) and isinstance(n.ctx, (ast.Store, ast.Del)) and n.attr in cc:
-                    cc.pop(n.attr)
+            if cc:
+                # an attribute of that name stored anywhere in the module is not a constant
+                for n in ast.walk(tree):
+                    if isinstance(n, ast.Attribute) and isinstance(n.ctx, (ast.Store, ast.Del)) and n.attr in cc:
+                        cc.pop(n.attr)
             cls_consts[c.name] = cc
+    if not mod_consts and not any(cls_consts.values()):
+        return 0
 
     class P(ast.NodeTransformer):
         def __init__(self):
@@ -517,6 +520,8 @@ class Inliner:
                 self.class_methods[c.name] = ms
         self.count = 0
         self.inlined_into: Dict[int, int] = {}
+        self._nested: Dict[int, Dict[str, ast.FunctionDef]] = {}
+        self._mro_cache: Dict[str, Dict[str, ast.FunctionDef]] = {}
 
     # -- eligibility -----------------------------------------------------------------------------------------------
     def _eligible(self, h: ast.FunctionDef) -> bool:
@@ -531,23 +536,34 @@ class Inliner:
         """(helper, kind) with kind in 'method' (implicit receiver), 'static', 'plain'."""
         f = call.func
         if isinstance(f, ast.Name):
+            if f.id in self.vocab:
+                return None
             for sc in reversed(scopes):
-                for n in sc.body:
-                    for d in ([n] if isinstance(n, ast.FunctionDef) else []):
-                        if d.name == f.id:
-                            return d, "plain"
-                # nested defs inside compound statements of the scope
-                for n in ast.walk(sc):
-                    if isinstance(n, ast.FunctionDef) and n is not sc and n.name == f.id and self._direct_child_def(sc, n):
-                        return n, "plain"
+                nd = self._nested.get(id(sc))
+                if nd is None:
+                    nd = {}
+                    stack = list(sc.body)
+                    while stack:
+                        n = stack.pop()
+                        if isinstance(n, ast.FunctionDef):
+                            nd.setdefault(n.name, n)
+                            continue
+                        if isinstance(n, (ast.AsyncFunctionDef, ast.Lambda, ast.ClassDef)):
+                            continue
+                        stack.extend(ast.iter_child_nodes(n))
+                    self._nested[id(sc)] = nd
+                if f.id in nd:
+                    return nd[f.id], "plain"
             if f.id in self.module_funcs:
                 return self.module_funcs[f.id], "plain"
             return None
         if isinstance(f, ast.Attribute) and isinstance(f.value, ast.Name) and cls:
             name = f.attr
-            if name.startswith("__") and not name.endswith("__"):
-                pass
-            ms = self._methods_mro(cls)
+            if name in self.vocab:
+                return None
+            if cls not in self._mro_cache:
+                self._mro_cache[cls] = self._methods_mro(cls)
+            ms = self._mro_cache[cls]
             if f.value.id in ("self", "cls", cls) and name in ms:
                 h = ms[name]
                 static = any(isinstance(d, ast.Name) and d.id == "staticmethod" for d in h.decorator_list)
@@ -922,6 +938,8 @@ class Inliner:
 
 def inline_module(tree: ast.Module, vocab: Set[str]) -> int:
     """Rewrite every function of the module in place; innermost functions first, two passes."""
+    if all(n.name in vocab for n in ast.walk(tree) if isinstance(n, (ast.FunctionDef, ast.AsyncFunctionDef))):
+        return 0                    # every function is an anchor the rules know by name: nothing to look through
     inl = Inliner(tree, vocab)
     total = 0
     for _pass in range(3):
